@@ -66,7 +66,13 @@ func keyedDiags(dir, root string, results map[string]*run.PkgResult, roots []*pa
 				}
 			case "PKGO01":
 				if m := pkgoTypeRe.FindStringSubmatch(d.Message); m != nil {
-					set[pk+"|PKGO01|"+m[1]] = true
+					// the first allowed package is the declaring one: same-named types of different packages stay apart
+					decl := ""
+					if i := strings.Index(d.Message, "Allowed packages: ["); i >= 0 {
+						decl = strings.TrimPrefix(strings.Fields(d.Message[i+19:] + " ")[0], "exp/"+root+"/")
+						decl = strings.TrimSuffix(decl, "]")
+					}
+					set[pk+"|PKGO01|"+decl+"."+m[1]] = true
 					continue
 				}
 			}
